@@ -258,18 +258,18 @@ func ruleHandlersValidate(c *Ctx) {
 		}
 	}
 	c.Floor(rule, 22, "handlers that touch cluster state only after validateRequest")
-	// validateRequest atoms
+	// validateRequest: acceptance requires every test to have passed (a dominance
+	// requirement on the accepting return, so that a test weakened by an extra
+	// conjunct — "header != nil && id != clusterID" — is not mistaken for the test)
 	isClosed := F(P.Method("server", "Server", "IsClosed"))
 	isLeader := F(P.Method("server/member", "Member", "IsLeader"))
-	c.atomRejects(c.Prop+"/validate-atoms", validate, "IsClosed() ⇒ not leader", func(cond ssa.Value, pos bool) bool {
-		cl, ok := cond.(*ssa.Call)
-		return ok && pos && isClosed.Match(cl.Common())
-	}, errReturn)
-	c.atomRejects(c.Prop+"/validate-atoms", validate, "!member.IsLeader() ⇒ not leader", func(cond ssa.Value, pos bool) bool {
-		cl, ok := cond.(*ssa.Call)
-		return ok && !pos && isLeader.Match(cl.Common())
-	}, errReturn)
-	c.atomRejects(c.Prop+"/validate-atoms", validate, "header.ClusterId != s.clusterID ⇒ error", relMatcher("!=", anyVal, loadOfField(clusterID)), errReturn)
+	getCID := F(P.Method("github.com/pingcap/kvproto/pkg/pdpb", "RequestHeader", "GetClusterId"))
+	accept := func(x ssa.Instruction) bool { r, ok := x.(*ssa.Return); return ok && retIsNilErr(r) }
+	c.need(c.Prop+"/validate-atoms", validate, "accepting return", accept, []Ev{
+		guardCall("!IsClosed()", false, callMatcher(isClosed)),
+		guardCall("member.IsLeader()", true, callMatcher(isLeader)),
+		guardRel("header.ClusterId == s.clusterID", "==", resultOfCall(getCID), loadOfField(clusterID)),
+	}, all, "a request is accepted only if the server is open, this member is the leader (lease checked) and the request carries this cluster's id")
 	// Member.IsLeader depends on the lease check
 	ml := P.Method("server/member", "Member", "IsLeader")
 	check := F(P.Method("server/election", "Leadership", "Check"))
